@@ -15,11 +15,14 @@ Definition is_qual_elem (e : mvn_elem) : bool := maven_category (me_str e) =? ca
 Definition s_zero : bytes := [48%N].
 Definition s_snapshot : bytes := [115; 110; 97; 112; 115; 104; 111; 116]%N.
 
-(* elements that may follow the numeric prefix *)
+(* elements that may follow the numeric prefix: a qualifier or a number attached by '-', or a
+   number attached by '.' that is not spelled "0" *)
 Definition tail_elem_ok (e : mvn_elem) : bool :=
-  (N.eqb (me_sep e) 45 && (is_num_elem e || is_qual_elem e))
+  (N.eqb (me_sep e) 45 && is_qual_elem e && (me_int e =? 0))
+  || (N.eqb (me_sep e) 45 && is_num_elem e)
   || (N.eqb (me_sep e) 46 && is_num_elem e && negb (bytes_eqb (me_str e) s_zero)).
 
+(* all elements are tail elements and the last one is not equivalent to the padding *)
 Fixpoint wide_tail (l : list mvn_elem) : bool :=
   match l with
   | [] => true
@@ -29,30 +32,38 @@ Fixpoint wide_tail (l : list mvn_elem) : bool :=
       && wide_tail t
   end.
 
-(* prev: the last element of the prefix so far; first: it is element 0 *)
-Fixpoint wide_prefix (first : bool) (prev : mvn_elem) (l : list mvn_elem) : bool :=
-  match l with
-  | [] => first || negb (bytes_eqb (me_str prev) s_zero)
-  | e :: t =>
-      if N.eqb (me_sep e) 46 && is_num_elem e then wide_prefix false e t
-      else (first || negb (bytes_eqb (me_str prev) s_zero)) && N.eqb (me_sep e) 45 && wide_tail l
-  end.
+(* elements of the dotted numeric prefix after the first one *)
+Definition pre_elem (e : mvn_elem) : bool := N.eqb (me_sep e) 46 && is_num_elem e.
 
-Definition d_mvn_wide (l : list mvn_elem) : bool :=
-  match l with
-  | [] => false
-  | e0 :: r => N.eqb (me_sep e0) 0 && is_num_elem e0 && wide_prefix true e0 r
-  end.
-
-(* split into numeric prefix and tail *)
+(* split into the rest of the numeric prefix and the tail *)
 Fixpoint split_prefix (l : list mvn_elem) : list mvn_elem * list mvn_elem :=
   match l with
   | [] => ([], [])
   | e :: t =>
-      if N.eqb (me_sep e) 46 && is_num_elem e
+      if pre_elem e
       then let '(p, r) := split_prefix t in (e :: p, r)
       else ([], l)
   end.
+
+(* trimmed: the last element of the prefix is not spelled "0" *)
+Fixpoint last_not_zero (p : list mvn_elem) : bool :=
+  match p with
+  | [] => true
+  | [e] => negb (bytes_eqb (me_str e) s_zero)
+  | _ :: t => last_not_zero t
+  end.
+
+Definition head_dash (t : list mvn_elem) : bool :=
+  match t with [] => true | e :: _ => N.eqb (me_sep e) 45 end.
+
+Definition d_mvn_wide (l : list mvn_elem) : bool :=
+  match l with
+  | [] => false
+  | e0 :: r =>
+      N.eqb (me_sep e0) 0 && is_num_elem e0
+      && last_not_zero (fst (split_prefix r)) && head_dash (snd (split_prefix r)) && wide_tail (snd (split_prefix r))
+  end.
+
 Definition mvn_prefix (l : list mvn_elem) : list mvn_elem :=
   match l with [] => [] | e0 :: r => e0 :: fst (split_prefix r) end.
 Definition mvn_tail (l : list mvn_elem) : list mvn_elem :=
